@@ -323,7 +323,7 @@ def main(argv):
             (known if kn else bad).append((i, qi, msg))
     if known:
         rep.known_finding(KNOWN_MIMIC + ' [%d witness(es), e.g. kernel %r]' %
-                          (len(known), cases[known[0][0]]['queries'][known[0][1]]['name']))
+                          (len(known), cases[known[0][0]]['queries'][known[0][1]]['name']), key='headerless-mimic-stripped')
 
     # ---- correspondence with the model
     shard = 12
